@@ -92,7 +92,7 @@ def _helper_read_crd(lit: LineIterator) -> tuple:
     resnums = []
     resnames = []
     attypes = []
-    pos = np.zeros((natom, 3), np.float32)
+    pos = np.zeros((natom, 3))
     segid = []
     resid = []
     atmasses = []
